@@ -865,6 +865,10 @@ func main() {
 		prof.ID = c.ID*1000000 + nextID
 		prof.CID = c.ID
 		tw.Emit(prof)
+		if prof.Panic || prof.Blocked {
+			tw.Flush()
+			return // the fault-free run itself fails: not an I/O matter, nothing to enumerate
+		}
 		sub := 1
 		run := func(x Case) {
 			if blockedSeen {
